@@ -8,7 +8,8 @@ PROP = {'modules': ['AmVerif.Props.C01'],
          'racers are inside it (forced simultaneous misses), 60-300 rounds per case, every 16 rounds 2000 unrelated insertions then every earlier '
          'handle re-read; `probe` = 2-4 readers look up 32 stable entries (directly and through AnyCache) while 2-4 writers insert 30k-200k '
          'unrelated entries; also under taskset with 3 CPUs (other shard count). cache: sequential op sequences with handle identity (h<n> = n-th '
-         'distinct entry) diffed against the model. non-trivial = every case; distinct = distinct (parameters, outcome)',
+         'distinct entry) diffed against the model; the handles LOADERS are given (load / get_cached / get_or_insert from inside Compound::load, script token @T:id:n, '
+         'also into the very slot being loaded: parent fills its own slot, child loads the parent back) are logged and must be the same entry as every later handle for the key (handle-unstable / entry-replaced). non-trivial = every case; distinct = distinct (parameters, outcome)',
  'assumptions': ['each of AssetMap::{get,insert,contains_key} is one atomic step (skeleton theorems: whole body inside one lock scope)',
                  'Box<CacheEntry> keeps its address when the HashMap grows'],
  'trusted': COMMON_TRUSTED + MODEL_TRUSTED + ['modelled, not verified: RwLock / RefCell give mutual exclusion for the extent of their guards; the lifetime-extending cast in '
